@@ -110,9 +110,58 @@ def CleanText (d : Delims) (s : Bytes) (r : List Item) : Prop :=
   (∀ i, i < s.length → ¬ d.ol <+: (s ++ spell d r).drop i ∧ ¬ d.tl <+: (s ++ spell d r).drop i) ∧
   (match r with | it :: _ => it.isText = false | [] => True)
 
-def Clean (d : Delims) : List Item → Prop
-  | [] => True
-  | it :: r => CleanItem d it ∧ CleanClose d it ∧ (match it with | .text s => CleanText d s r | _ => True) ∧ Clean d r
+/-! ### raw and comment blocks are lexical
+
+After a tag named `raw` or `comment` the tokenizer looks for the block's end tag
+(`TL -? \s* endraw \s* -? TR`); the bytes before it are one text token, whatever they look like. -/
+
+def Item.tagName : Item → Option Bytes
+  | .tag name _ _ _ _ _ _ => some name
+  | _ => none
+
+/-- the end tag the tokenizer looks for after this item (`none`: it does not look for one) -/
+def lexEndOf (name : Option Bytes) : Option Bytes :=
+  match name with
+  | some n => if n == nameRaw || n == nameComment then some (nameEnd ++ n) else none
+  | none => none
+
+def Item.lexEnd (it : Item) : Option Bytes := lexEndOf it.tagName
+
+/-- `s` begins with an end tag named `n`: `TL -? \s* n \s* -? TR` -/
+def EndTagAt (d : Delims) (n s : Bytes) : Prop :=
+  ∃ (b1 b2 : Bool) (ws1 ws2 t : Bytes),
+    s = d.tl ++ (hyB b1 ++ (ws1 ++ (n ++ (ws2 ++ (hyB b2 ++ (d.tr ++ t)))))) ∧ AllP .space ws1 ∧ AllP .space ws2
+
+/-- the same, decided by running the end-tag expression -/
+def endTagAtB (d : Delims) (n s : Bytes) : Bool := ((endTagRe d n).matchAt s.length s 0).isSome
+
+/-- no end tag `n` begins anywhere in `s` -/
+def NoEnd (d : Delims) (n s : Bytes) : Prop := ∀ i, i < s.length → endTagAtB d n (s.drop i) = false
+
+/-- the first end tag `n` in `s` begins at offset `a` -/
+def FirstEnd (d : Delims) (n s : Bytes) (a : Nat) : Prop :=
+  (∀ i, i < a → endTagAtB d n (s.drop i) = false) ∧ endTagAtB d n (s.drop a) = true
+
+instance (d : Delims) (n s : Bytes) : Decidable (NoEnd d n s) := by unfold NoEnd; infer_instance
+instance (d : Delims) (n s : Bytes) (a : Nat) : Decidable (FirstEnd d n s a) := by unfold FirstEnd; infer_instance
+
+/-- what the position of an item requires: after a raw/comment tag (`lex = some n`) a text is the block's
+    body — ANY bytes in which no end tag begins, followed by the end tag — or there is no end tag ahead at
+    all and the text is an ordinary one; an object or tag stands where the end tag begins, or there is no
+    end tag ahead. Elsewhere (`lex = none`) a text is an ordinary text. -/
+def CleanCtx (d : Delims) (lex : Option Bytes) (it : Item) (r : List Item) : Prop :=
+  match lex, it with
+  | none, .text s => CleanText d s r
+  | none, _ => True
+  | some n, .text s => FirstEnd d n (s ++ spell d r) s.length ∨ (NoEnd d n (s ++ spell d r) ∧ CleanText d s r)
+  | some n, it => endTagAtB d n (spell d (it :: r)) = true ∨ NoEnd d n (spell d (it :: r))
+
+def CleanFrom (d : Delims) : Option Bytes → List Item → Prop
+  | _, [] => True
+  | lex, it :: r => CleanItem d it ∧ CleanClose d it ∧ CleanCtx d lex it r ∧ CleanFrom d it.lexEnd r
+
+/-- the cleanliness predicate of a template -/
+@[reducible] def Clean (d : Delims) (items : List Item) : Prop := CleanFrom d none items
 
 instance headNotDec (pr : Pred) (t : Bytes) : Decidable (HeadNot pr t) :=
   match t with
@@ -124,17 +173,26 @@ instance (d : Delims) (it : Item) : Decidable (CleanClose d it) := by cases it <
 instance (d : Delims) (s : Bytes) (r : List Item) : Decidable (CleanText d s r) := by
   unfold CleanText
   cases r <;> infer_instance
+instance (d : Delims) (lex : Option Bytes) (it : Item) (r : List Item) : Decidable (CleanCtx d lex it r) := by
+  unfold CleanCtx
+  cases lex <;> cases it <;> infer_instance
 
-def Clean.dec (d : Delims) : (items : List Item) → Decidable (Clean d items)
-  | [] => isTrue trivial
-  | it :: r =>
-    have := Clean.dec d r
-    match it with
-    | .text s => by unfold Clean; infer_instance
-    | .obj .. => by unfold Clean; infer_instance
-    | .tag .. => by unfold Clean; infer_instance
+def CleanFrom.dec (d : Delims) : (lex : Option Bytes) → (items : List Item) → Decidable (CleanFrom d lex items)
+  | _, [] => isTrue trivial
+  | lex, it :: r =>
+    have := CleanFrom.dec d it.lexEnd r
+    by unfold CleanFrom; infer_instance
 
-instance (d : Delims) (items : List Item) : Decidable (Clean d items) := Clean.dec d items
+instance (d : Delims) (lex : Option Bytes) (items : List Item) : Decidable (CleanFrom d lex items) := CleanFrom.dec d lex items
+
+theorem Clean_cons (d : Delims) (it : Item) (r : List Item) :
+    Clean d (it :: r) ↔ CleanItem d it ∧ CleanClose d it ∧ CleanCtx d none it r ∧ CleanFrom d it.lexEnd r := Iff.rfl
+
+/-- after an item that is not a raw/comment tag the rest is clean on its own -/
+theorem Clean_tail {d : Delims} {it : Item} {r : List Item} (h : Clean d (it :: r)) (hl : it.lexEnd = none) : Clean d r := by
+  have := h.2.2.2
+  rw [hl] at this
+  exact this
 
 /-! Sanity: `a{{- x | f }}{% if x -%}\n{% endif %}` with the defaults and with `<< >> [ ]` -/
 def exItems : List Item :=
@@ -145,3 +203,10 @@ def exDelims : Delims := ⟨[60, 60], [62, 62], [91], [93]⟩
 example : GoodDelims Delims.default ∧ GoodDelims exDelims := by decide
 example : Clean Delims.default exItems ∧ Clean exDelims exItems := by decide
 example : scanWith (tokenRe exDelims) exDelims (spell exDelims exItems) 1 = tokensOf exDelims exItems 1 := by decide
+
+/-! `p{% raw-%}{% b {{ x {%- endraw %}q`: the body `{% b {{ x ` is a text item of arbitrary bytes -/
+def exRawBody : List Item :=
+  [.text [112], .tag nameRaw [] false true [32] [] [], .text [123, 37, 32, 98, 32, 123, 123, 32, 120, 32],
+   .tag (nameEnd ++ nameRaw) [] true false [32] [] [32], .text [113]]
+example : Clean Delims.default exRawBody ∧ Clean exDelims exRawBody := by decide
+example : scanWith (tokenRe Delims.default) Delims.default (spell Delims.default exRawBody) 1 = tokensOf Delims.default exRawBody 1 := by decide
